@@ -121,6 +121,16 @@ fn norm_any(v: &PlutusData) -> PlutusData {
     }
 }
 
+/// the property's quantifier: every constructor tag is one `constr_index` accepts
+fn valid_tags(v: &PlutusData) -> bool {
+    match v {
+        PlutusData::Constr(c) => (matches!(c.tag, 121..=127 | 1280..=1400) || (c.tag == 102 && c.any_constructor.is_some())) && c.fields.iter().all(valid_tags),
+        PlutusData::Map(m) => m.iter().all(|(k, v)| valid_tags(k) && valid_tags(v)),
+        PlutusData::Array(a) => a.iter().all(valid_tags),
+        _ => true,
+    }
+}
+
 /// minimal CBOR walker used only to check the chunking rule on produced encodings.
 /// returns Err(description) on the first byte string that breaks the rule.
 fn scan_chunks(bs: &[u8], pos: &mut usize) -> Result<(), String> {
@@ -366,12 +376,43 @@ fn alt_encode(r: &mut Rng, v: &PlutusData, out: &mut Vec<u8>) {
         PlutusData::BoundedBytes(b) => alt_bytes(r, b, out),
     }
 }
-fn has_tag102(bs: &[u8]) -> bool {
-    bs.windows(2).any(|w| w == [0xd8, 0x66]) || bs.windows(3).any(|w| w == [0xd9, 0, 0x66])
-        || bs.windows(5).any(|w| w == [0xda, 0, 0, 0, 0x66]) || bs.windows(9).any(|w| w == [0xdb, 0, 0, 0, 0, 0, 0, 0, 0x66])
+/// tag 102 with an inner array head the Rust does not check (`d.array()?` ignores the length; for an
+/// indefinite head the break is not consumed): any head, then uint, then the fields, then junk
+fn lenient102(r: &mut Rng) -> Vec<u8> {
+    let mut out = vec![];
+    let wrap = r.below(5);
+    match wrap { 1 => out.push(0x81), 2 => out.push(0x9f), 3 => out.push(0x82), 4 => out.extend([0xa1, 0x00]), _ => {} }
+    alt_head(r, 6, 102, &mut out);
+    match r.below(8) { 0 => out.push(0x80), 1 => out.push(0x81), 2 => out.push(0x82), 3 => out.push(0x83), 4 => out.extend([0x98, 0x02]), 5 => out.push(0x9f), 6 => out.extend([0x9a, 0, 0, 0, 2]), _ => out.push(0x97) }
+    let any = r.u64_edgy();
+    alt_head(r, 0, any, &mut out);
+    let n = r.below(3) as usize;
+    let fields: Vec<PlutusData> = (0..n).map(|_| gen_value(r, 0)).collect();
+    if r.chance(1, 2) { alt_head(r, 4, n as u64, &mut out); for x in &fields { alt_encode(r, x, &mut out); } }
+    else { out.push(0x9f); for x in &fields { alt_encode(r, x, &mut out); } out.push(0xff); }
+    match r.below(4) { 0 => out.push(0x05), 1 => out.push(0xff), 2 => out.extend([0x05, 0xff]), _ => {} }
+    match wrap { 2 => out.push(0xff), 3 => out.push(0x00), _ => {} }
+    out
 }
 
 pub fn generate(g: &mut Gen) {
+    // outside the property's quantifier (constr_index panics): compared with the model only
+    for i in 0..(g.cases / 50).max(4) {
+        let mut r = g.rng.fork();
+        let bad = |r: &mut Rng| {
+            let (tag, any) = match r.below(6) { 0 => (102, None), 1 => (*r.pick(&[0u64, 2, 3, 5, 101, 103, 120, 128, 1279, 1401, u64::MAX]), None), 2 => (r.u64_edgy(), Some(1)), 3 => (2, None), _ => (r.below(2000), None) };
+            let n = r.below(3) as usize;
+            PlutusData::Constr(Constr { tag, any_constructor: any, fields: MaybeIndefArray::Def((0..n).map(|_| gen_value(r, 0)).collect()) })
+        };
+        let a = bad(&mut r);
+        let b = if i % 2 == 0 { gen_value(&mut r, 2) } else { PlutusData::Array(MaybeIndefArray::Indef(vec![gen_value(&mut r, 1), bad(&mut r)])) };
+        let c = PlutusData::Array(MaybeIndefArray::Def(vec![gen_value(&mut r, 0), a.clone()]));
+        let vals = [a, b, c];
+        let mut ops = vec![];
+        for x in &vals { for y in &vals { ops.push(format!("cmp {} {}", show_s(x), show_s(y))); } }
+        for x in &vals { ops.push(format!("rt {}", show_s(x))); }
+        g.case(ops);
+    }
     for _ in 0..g.cases {
         let mut r = g.rng.fork();
         let depth = match r.below(10) { 0..=2 => 0, 3..=5 => 1, 6 | 7 => 2, 8 => 3, _ => 4 };
@@ -386,7 +427,7 @@ pub fn generate(g: &mut Gen) {
             let mut alt = vec![]; alt_encode(&mut r, x, &mut alt);
             ops.push(format!("decx {} {}", hex(&alt), show_s(&norm_any(x))));
         }
-        // malformed / truncated input (kept away from the tag-102 leniency the model documents)
+        // malformed / truncated input, and the tag-102 leniency of the decoder
         let mut enc = minicbor::to_vec(&vals[0]).unwrap();
         match r.below(4) {
             0 => { let n = r.below(enc.len() as u64 + 1) as usize; enc.truncate(n); }
@@ -394,7 +435,8 @@ pub fn generate(g: &mut Gen) {
             2 => { let n = r.range(1, 12) as usize; enc = r.bytes(n); }
             _ => { enc.extend(r.bytes(3)); }
         }
-        if !has_tag102(&enc) { ops.push(format!("dec {}", hex(&enc))); }
+        ops.push(format!("dec {}", hex(&enc)));
+        if r.chance(1, 4) { ops.push(format!("dec {}", hex(&lenient102(&mut r)))); }
         g.case(ops);
     }
 }
@@ -413,8 +455,14 @@ pub fn run_case(case: &Case, out: &mut Out) {
             "cmp" => {
                 let mut pos = 1;
                 let (Some(a), Some(b)) = (parse(op, &mut pos), parse(op, &mut pos)) else { out.reply("bad-op".into()); continue; };
+                let inq = valid_tags(&a) && valid_tags(&b);
+                if !inq { out.cov("outside-quantifier"); }
                 match guard(|| a.cmp(&b)) {
-                    None => { out.panic(); out.cov("cmp-panic"); }
+                    None => {
+                        if inq { out.viol("cmp-panic", format!("{} | {}", show_s(&a), show_s(&b))); }
+                        out.panic(); out.cov("cmp-panic");
+                    }
+                    Some(o) if !inq => out.ok(ord_s(o)),
                     Some(o) => {
                         let (ta, tb) = (show_s(&a), show_s(&b));
                         // equality ignores definite/indefinite encodings (independent structural check)
@@ -435,6 +483,16 @@ pub fn run_case(case: &Case, out: &mut Out) {
                 let mut pos = 1;
                 let Some(a) = parse(op, &mut pos) else { out.reply("bad-op".into()); continue; };
                 let enc = minicbor::to_vec(&a).unwrap();
+                if !valid_tags(&a) {
+                    // outside the quantifier: only compared with the model
+                    out.cov("outside-quantifier");
+                    match guard(|| minicbor::decode::<PlutusData>(&enc)) {
+                        None => out.panic(),
+                        Some(Err(_)) => out.ok(format!("{} err", hex(&enc))),
+                        Some(Ok(b)) => out.ok(format!("{} {}", hex(&enc), show_s(&b))),
+                    }
+                    continue;
+                }
                 let mut p = 0;
                 if let Err(e) = scan_chunks(&enc, &mut p) { out.viol("chunking", format!("{} in encoding {} of {}", e, hex(&enc), show_s(&a))); }
                 else if p != enc.len() { out.viol("encoding-not-one-item", format!("{} of {}", hex(&enc), show_s(&a))); }
@@ -459,6 +517,8 @@ pub fn run_case(case: &Case, out: &mut Out) {
                         out.err("decode");
                     }
                     Some(Ok(v)) => {
+                        // the decoder never leaves the quantifier: valid tags, comparable without panic
+                        if !valid_tags(&v) || guard(|| v == v) != Some(true) { out.viol("decode-produced-invalid-constr", format!("{} -> {}", hex(&bs), show_s(&v))); }
                         if op[0] == "decx" {
                             if show_s(&v) != op[2..].join(" ") { out.viol("decode-alt-encoding", format!("{} decoded to {} expected {}", hex(&bs), show_s(&v), op[2..].join(" "))); }
                             out.cov("dec-alt-ok");
